@@ -11,22 +11,31 @@ BASE_NOTE = ("Trusted: Lean 4.33 kernel; axioms limited to propext/Classical.cho
              "correspondence harness (model vs /repo on generated inputs) which ties the hand-written model to the code; "
              "the Lean compiler for the driver. ")
 
-CLAIMS = {
-    "C07": dict(
-        text="Lean theorems C07_tag/C07_kids/C07_list/C07_insert_remove: for every tree, indent and eol the model renderer's "
-             "output is invariant under deleting (hence inserting) metadata nodes at any positions; model tied to /repo by "
-             "exhaustive small-scope + random differential runs of get_html_string, and the statement itself is evaluated on the "
-             "real code (impl(t) == impl(stripMeta t)).",
-        design="§6 C07",
-        note=BASE_NOTE + "Modelled, not verified: Python isinstance dispatch order in the child loop.",
-        technique="Lean 4 proof by mutual structural induction over the tag tree + differential correspondence check",
-    ),
-}
+def load_claims():
+    """each harness/props/cnn.py may define MANIFEST = dict(text=, design=, note=, technique=[, category=])"""
+    import importlib
+    import sys
+    sys.path.insert(0, os.path.join(VERIF, "harness"))
+    claims = {}
+    for pid in ALL:
+        path = os.path.join(VERIF, "harness", "props", pid.lower() + ".py")
+        if not os.path.exists(path):
+            continue
+        src = open(path).read()
+        if "MANIFEST" not in src:
+            continue
+        mod = importlib.import_module("props." + pid.lower())
+        m = dict(mod.MANIFEST)
+        m["note"] = BASE_NOTE + m.get("note", "")
+        claims[pid] = m
+    return claims
+
 
 NOT_YET = "not claimed yet: model/theorems for this property are still being built in this round (see DESIGN.md §11 build order)"
 
 
 def main():
+    CLAIMS = load_claims()
     checks = []
     for pid in ALL:
         if pid not in CLAIMS:
